@@ -84,6 +84,20 @@ MISSED = {
  'C19/r5-change1': 'filesystem model: the cache directory is on another filesystem than everything outside it, shutil.move into it is an interruptible copy',
  'C19/r5-change2': 'a 5xx answer carries an error page with its own content-length instead of the payload',
  'C20/r5-change2': 'train_loss row independence with synthetic predictions scaled / shifted per row',
+ 'C01/r6-change1': 'the reference re-checks that the batch stream it reads is made of passes over the client\'s examples (it used to re-derive only its length); batch size 8 (C04 caught the change as it stood)',
+ 'C04/r6-change1': 'the dataset under test may be the head ds[:n] of a longer dataset whose size was asked for and that was batched before (also in C03)',
+ 'C05/r6-change1': 'ModelEvaluator clients hand their batches over as one-shot iterators / generators',
+ 'C05/r6-change2': 'pmap evaluator over what ClientDataset.batch() produces (full batches, no mask key) next to a client with twice as many batches in the same block',
+ 'C06/r6-change2': 'the caller peeks at the first batch of a padded_batch view before the pass that is evaluated; C03 starts a quarter of its views with an abandoned pass',
+ 'C07/r6-change2': 'new check mean_from_pieces: the weighted mean assembled from tree_zeros_like / tree_weight / tree_add / tree_inverse_weight, every tree handed to a piece stays usable',
+ 'C08/r6-change2': 'SQLite views (plain and under SubsetFederatedData) over a database in a caller-defined blob encoding opened with parse_examples',
+ 'C10/r6-change1': 'a matrix-shaped weight, initial parameters given as host NumPy arrays (column-major in a third of those cases), round trip through msgpack of the state leaves next to save_state/load_state (C16 caught the change as it stood)',
+ 'C10/r6-change2': 'AgnosticFedAvg continued from a state whose domain window is shorter than the algorithm\'s window size',
+ 'C12/r6-change2': 'cohorts sampled with replacement: the same client (id and dataset) twice in one round',
+ 'C13/r6-change1': 'populations of 65-130 clients under the samplers (bulk reads beyond one query batch)',
+ 'C17/r6-change1': 'MimeLite clients with finite targets around 2^68..2^100: the squared norm of the update overflows float32; the divergence guard moved behind the bound check (C07 caught the change as it stood)',
+ 'C17/r6-change2': 'ignore_grads_haiku over base optimizers with weight decay (adamw, sgd with decay): a zero gradient does not mean an unchanged parameter',
+ 'C18/r6-change2': 'new check rotation_roundtrip_legacy_rng: the rotation clauses in a child interpreter with JAX_THREEFRY_PARTITIONABLE=0',
  'C18/r3-change1': 'the 7- and 8-factor (length, block) pairs, left out on compile cost, are executed op by op under jax.disable_jit()',
 }
 # Filed changes that the checks do not detect ON PURPOSE: the input they need lies
